@@ -171,14 +171,14 @@ Proof.
     [injection Hp as <- <- <-; cbn in Hsh';
      cbn [argsort_nat length seq fold_left insert_nat nth Nat.leb unpermute map index_of Nat.eqb app] in Hget;
      (  split; [rewrite Hsh', Hsh; cbn [length nth skipn]; repeat split; reflexivity|];
-  split; [intros [|x [|y [|z r]]] Hb; try (rewrite Hsh' in Hb; discriminate Hb);
+  split; [intros [|x [|y [|z r]]] Hb; try (rewrite Hsh' in Hb; apply in_bounds_length in Hb; cbn [length] in Hb; discriminate Hb);
           let Hlr := fresh "Hlr" in let Hg := fresh "Hg" in
           destruct (Hget x y z r Hb) as [Hlr Hg];
           rewrite Hsh' in Hb; apply in_bounds3 in Hb; destruct Hb as (Hx & Hy & Hz & Hr);
           unfold src3; cbn [nth skipn]; rewrite Hsh;
           split; [apply in_bounds3; repeat split; auto using cf_lt|];
           rewrite Hg; apply Gt; apply in_bounds3; repeat split; assumption |];
-  split; [intros [|i0 [|i1 [|i2 r]]] Hb; try (rewrite Hsh in Hb; discriminate Hb);
+  split; [intros [|i0 [|i1 [|i2 r]]] Hb; try (rewrite Hsh in Hb; apply in_bounds_length in Hb; cbn [length] in Hb; discriminate Hb);
           rewrite Hsh in Hb; apply in_bounds3 in Hb; destruct Hb as (H0 & H1 & H2 & Hr);
           match goal with
           | |- context [src3 ?p0 ?f0 ?p1 ?f1 ?p2 ?f2 ?n0 ?n1 ?n2 _] =>
@@ -188,7 +188,7 @@ Proof.
           split; [apply in_bounds3; repeat split; auto using cf_lt|];
           unfold src3; cbn [nth skipn]; rewrite !cf_invol by assumption; reflexivity |];
   intros [|x1 [|y1 [|z1 r1]]] [|x2 [|y2 [|z2 r2]]] Hb1 Hb2;
-    try (rewrite Hsh' in Hb1; discriminate Hb1); try (rewrite Hsh' in Hb2; discriminate Hb2);
+    try (rewrite Hsh' in Hb1; apply in_bounds_length in Hb1; cbn [length] in Hb1; discriminate Hb1); try (rewrite Hsh' in Hb2; apply in_bounds_length in Hb2; cbn [length] in Hb2; discriminate Hb2);
     rewrite Hsh' in Hb1, Hb2; apply in_bounds3 in Hb1, Hb2;
     destruct Hb1 as (Hx1 & Hy1 & Hz1 & Hr1); destruct Hb2 as (Hx2 & Hy2 & Hz2 & Hr2);
     unfold src3; cbn [nth skipn]; intros E; injection E as E0 E1 E2 Er;
@@ -197,4 +197,116 @@ Proof.
     apply cf_inj in E2; [|assumption|assumption];
     subst; reflexivity) |]).
   contradiction.
+Qed.
+
+(* ------------------------------------------------------------------ the transform as an index map *)
+
+Lemma nth_NQ p x y z : p < 3 -> nth p [NQ x; NQ y; NQ z; 1%Q] 0%Q = NQ (nth p [x; y; z] 0).
+Proof. intros H. destruct p as [|[|[|p]]]; try lia; reflexivity. Qed.
+
+Lemma perms3_lt p0 p1 p2 : In [p0; p1; p2] perms3 -> p0 < 3 /\ p1 < 3 /\ p2 < 3.
+Proof.
+  intros H. cbn [In perms3] in H.
+  repeat (destruct H as [H|H]; [injection H as <- <- <-; lia|]). contradiction.
+Qed.
+
+Lemma apply_aff_core p0 f0 p1 f1 p2 f2 n0 n1 n2 x y z r :
+  In [p0; p1; p2] perms3 ->
+  is_flip f0 = true -> is_flip f1 = true -> is_flip f2 = true ->
+  nth p0 [x; y; z] 0 < n0 -> nth p1 [x; y; z] 0 < n1 -> nth p2 [x; y; z] 0 < n2 ->
+  apply_aff (T_lit p0 p1 p2 (inject_Z f0) (inject_Z f1) (inject_Z f2) (NQ n0) (NQ n1) (NQ n2))
+            (x :: y :: z :: r) =
+  Some (cf f0 n0 (nth p0 [x; y; z] 0) :: cf f1 n1 (nth p1 [x; y; z] 0) :: cf f2 n2 (nth p2 [x; y; z] 0) :: r).
+Proof.
+  intros Hp F0 F1 F2 H0 H1 H2.
+  destruct (perms3_lt _ _ _ Hp) as (L0 & L1 & L2).
+  destruct (T_lit_action p0 p1 p2 (inject_Z f0) (inject_Z f1) (inject_Z f2) (NQ n0) (NQ n1) (NQ n2)
+              (NQ x) (NQ y) (NQ z) Hp) as (E0 & E1 & E2).
+  rewrite nth_NQ in E0, E1, E2 by assumption.
+  rewrite <- NQ_cf in E0, E1, E2 by assumption.
+  unfold apply_aff.
+  change [inject_Z (Z.of_nat x); inject_Z (Z.of_nat y); inject_Z (Z.of_nat z); 1%Q]
+    with [NQ x; NQ y; NQ z; 1%Q].
+  rewrite (q_to_nat_eq _ _ E0), (q_to_nat_eq _ _ E1), (q_to_nat_eq _ _ E2). reflexivity.
+Qed.
+
+Lemma src3_nth p0 f0 p1 f1 p2 f2 n0 n1 n2 x y z r :
+  p0 < 3 -> p1 < 3 -> p2 < 3 ->
+  src3 p0 f0 p1 f1 p2 f2 n0 n1 n2 (x :: y :: z :: r) =
+  cf f0 n0 (nth p0 [x; y; z] 0) :: cf f1 n1 (nth p1 [x; y; z] 0) :: cf f2 n2 (nth p2 [x; y; z] 0) :: r.
+Proof.
+  intros L0 L1 L2. unfold src3. cbn [skipn].
+  destruct p0 as [|[|[|p0]]]; try lia; destruct p1 as [|[|[|p1]]]; try lia; destruct p2 as [|[|[|p2]]]; try lia;
+    reflexivity.
+Qed.
+
+(* ------------------------------------------------------------------------------ C17_data *)
+
+Theorem reorder_data a A code a' A' T o :
+  wf_arr a ->
+  reorder a A code = Ok (a', A', T, o) ->
+  (length (ashape a') = length (ashape a) /\
+   (forall k pk fk, nth_error o k = Some (Some (pk, fk)) -> nth pk (ashape a') 0 = nth k (ashape a) 0) /\
+   skipn 3 (ashape a') = skipn 3 (ashape a)) /\
+  (forall idx', in_bounds (ashape a') idx' = true ->
+     exists idx, apply_aff T idx' = Some idx /\ in_bounds (ashape a) idx = true /\
+                 aget a' idx' = aget a idx /\ skipn 3 idx = skipn 3 idx') /\
+  (forall idx, in_bounds (ashape a) idx = true ->
+     exists! idx', in_bounds (ashape a') idx' = true /\ apply_aff T idx' = Some idx).
+Proof.
+  intros Hwf H. destruct (reorder_sperm _ _ _ _ _ _ _ H) as [Hs _].
+  apply reorder_ok in H as (Hv & Hnd & HA & Ht & Ha & HT & ->).
+  destruct (is_sperm_inv o Hs) as (p0 & f0 & p1 & f1 & p2 & f2 & -> & Hp & F0 & F1 & F2).
+  destruct (ashape a) as [|n0 [|n1 [|n2 rest]]] eqn:Hsh; cbn [length] in Hnd; try lia.
+  rewrite inv_ornt_aff_lit in HT by exact Hp. injection HT as <-.
+  destruct (perms3_lt _ _ _ Hp) as (L0 & L1 & L2).
+  destruct (data_core a n0 n1 n2 rest p0 f0 p1 f1 p2 f2 a' Hwf Hsh Hp Ha)
+    as ((Sl & S0 & S1 & S2 & Sr) & Hval & Hex & Hinj).
+  assert (Haff : forall idx', in_bounds (ashape a') idx' = true ->
+            apply_aff (T_lit p0 p1 p2 (inject_Z f0) (inject_Z f1) (inject_Z f2) (NQ n0) (NQ n1) (NQ n2)) idx'
+            = Some (src3 p0 f0 p1 f1 p2 f2 n0 n1 n2 idx')).
+  { intros idx' Hb.
+    assert (Hlen := in_bounds_length _ _ Hb). rewrite Sl, Hsh in Hlen. cbn [length] in Hlen.
+    destruct idx' as [|x [|y [|z r]]]; try discriminate Hlen.
+    rewrite src3_nth by assumption.
+    assert (Hlt : forall p, p < 3 -> nth p [x; y; z] 0 < nth p (ashape a') 0).
+    { intros p Lp. pose proof (in_bounds_nth _ _ p Hb ltac:(rewrite Sl, Hsh; cbn [length]; lia)) as G.
+      destruct p as [|[|[|p]]]; try lia; exact G. }
+    apply apply_aff_core; try assumption.
+    - rewrite <- S0. apply Hlt, L0.
+    - rewrite <- S1. apply Hlt, L1.
+    - rewrite <- S2. apply Hlt, L2. }
+  split; [|split].
+  - split; [exact Sl|]. split; [|exact Sr].
+    intros k pk fk Hk. destruct k as [|[|[|k]]]; cbn [nth_error] in Hk.
+    + injection Hk as <- <-. exact S0.
+    + injection Hk as <- <-. exact S1.
+    + injection Hk as <- <-. exact S2.
+    + destruct k; discriminate Hk.
+  - intros idx' Hb. destruct (Hval idx' Hb) as [Hi Hg].
+    exists (src3 p0 f0 p1 f1 p2 f2 n0 n1 n2 idx'). split; [apply Haff, Hb|].
+    split; [exact Hi|]. split; [exact Hg|]. reflexivity.
+  - intros idx Hb. destruct (Hex idx Hb) as (idx' & Hb' & Hsrc).
+    exists idx'. split.
+    + split; [exact Hb'|]. rewrite Haff by exact Hb'. rewrite Hsrc. reflexivity.
+    + intros j [Hbj Hj]. rewrite Haff in Hj by exact Hbj. injection Hj as Hj.
+      apply Hinj; try assumption. congruence.
+Qed.
+
+(* ---------------------------------------------------------------------------- C17_affine *)
+
+Theorem reorder_affine a A code a' A' T o :
+  reorder a A code = Ok (a', A', T, o) ->
+  A' = mmul A T /\ is_sperm o = true /\ is_shape 4 4 T = true /\
+  exists rows, ornt_rows o = Some rows /\ mat_eq T (T_spec rows (ashape a)).
+Proof.
+  intros H. destruct (reorder_sperm _ _ _ _ _ _ _ H) as [Hs _].
+  apply reorder_ok in H as (Hv & Hnd & HA & Ht & Ha & HT & ->).
+  split; [reflexivity|]. split; [exact Hs|].
+  destruct (is_sperm_inv o Hs) as (p0 & f0 & p1 & f1 & p2 & f2 & -> & Hp & F0 & F1 & F2).
+  destruct (ashape a) as [|n0 [|n1 [|n2 rest]]] eqn:Hsh; cbn [length] in Hnd; try lia.
+  rewrite inv_ornt_aff_lit in HT by exact Hp. injection HT as <-.
+  split; [apply T_lit_shape, Hp|].
+  exists [(p0, f0); (p1, f1); (p2, f2)]. split; [reflexivity|].
+  apply T_lit_spec; assumption.
 Qed.
